@@ -156,6 +156,39 @@ class Ctx:
         elif cond[0] == "not":
             self.refine(cond[1], not d)
 
+    _SIGNS = {"eq": {0}, "ne": {-1, 1}, "lt": {-1}, "le": {-1, 0}, "gt": {1}, "ge": {0, 1}}
+
+    def known_rel(self, op, d):
+        """Truth of `d <op> 0` implied by the numeric decisions already taken on this path (None if open)."""
+        allowed = {-1, 0, 1}
+        seen = False
+        for c, dec, _ in self.trace:
+            neg = False
+            while isinstance(c, tuple) and c and c[0] == "not":
+                c, neg = c[1], not neg
+            if not (isinstance(c, tuple) and len(c) == 3 and c[0] in self._SIGNS and isinstance(c[1], Rat) and isinstance(c[2], Rat)):
+                continue
+            dd = c[1] - c[2]
+            s = set(self._SIGNS[c[0]])
+            if dec == neg:
+                s = {-1, 0, 1} - s
+            if dd == d:
+                pass
+            elif dd == -d:
+                s = {-x for x in s}
+            else:
+                continue
+            allowed &= s
+            seen = True
+        if not seen:
+            return None
+        q = self._SIGNS[op]
+        if allowed <= q:
+            return True
+        if not (allowed & q):
+            return False
+        return None
+
     def event(self, kind, data, where=None):
         self.events.append(Event(kind, data, where))
 
